@@ -726,7 +726,8 @@ PROPS["C01"] = {
                  "WhatIs.C01.one_report_per_file"],
     "facts": {"scan.panics": SCAN_PANICS, "ssh1.checksBlocks": True, "ssh1.boundsMPInt": True, "ssh1.boundsString": True,
               "rpm.prechecked": True, "jks.prechecked": True, "b64.panicOnDecodeError": False,
-              "openssh.kdfOptsLengthGuard": True, "openssh.kdfOptsWideSum": True,
+              "openssh.kdfOptsLengthGuard": True, "openssh.kdfOptsWideSum": True, "jks.recovers": True,
+              "pgp.dsaSizeGuard": True, "armor.headerValueBounded": True,
               "filetypes.patternWithInnerStar": False, "rpm.uncheckedAccessorCalls": []},
     "nontrivial": nt_c01,
     "gen_timeout": 3000,
@@ -769,7 +770,7 @@ PROPS["C08"] = {
                  "WhatIs.C08.jks_stuck_witness", "WhatIs.C08.pgp_bodies_bounded", "WhatIs.C08.pgp_framing_terminates"],
     "facts": {"scan.makes": SCAN_MAKES, "limits.maxReadSize": 128000000, "limits.inspectReadsThroughLimit": True,
               "ssh1.boundsMPInt": True, "ssh1.boundsString": True, "rpm.prechecked": True, "jks.prechecked": True,
-              "jks.stopsOnTruncation": True},
+              "jks.stopsOnTruncation": True, "pgp.dsaSizeGuard": True, "armor.headerValueBounded": True},
     "nontrivial": nt_c01,
     "gen_timeout": 3000,
     "rule": "the hostile inputs of C01 plus inputs of 1 KiB, 64 KiB and 1 MiB of every content class whose cost could grow faster than "
